@@ -116,6 +116,18 @@ theorem c04_transfer_never_creates (sys : Sys) (i j n : Nat) (cur : Cur) :
   have := step_pot pot_worth cls sys (.transfer i j n cur) (fun _ h => nomatch h) rfl
   simp only [paid] at this; omega
 
+/-- A transfer that reports failure leaves every store of the colony exactly as it was. -/
+theorem c04_failed_transfer_is_free (sys : Sys) (i j n : Nat) (cur : Cur)
+    (h : (step cls sys (.transfer i j n cur)).2 = .bool false) : (step cls sys (.transfer i j n cur)).1 = sys :=
+  step_transfer_refused cls sys i j n cur h
+
+/-- `convert_nadh_to_atp` moves energy between NADH and ATP inside the store: net worth, debt and the sum of
+    the balances are unchanged (whatever it returns, including the non-positive "nothing converted" values). -/
+theorem c04_convert_keeps_worth (s : Store) (n : Nat) :
+    (convert s n).1.worth = s.worth ∧ (convert s n).1.debt = s.debt ∧ (convert s n).1.total = s.total := by
+  have h := convert_spec s n
+  exact ⟨pot_worth.convert s n, h.debt, h.total⟩
+
 /-- More generally only `regenerate` and `reset` bring energy in: every other call leaves the colony's net
     worth where it was or lower, and a successful `consume` lowers it by exactly its cost. -/
 theorem c04_only_inflow_creates (sys : Sys) (op : Op) (wf : Sys.WF sys) (h : op.inflow = false) :
@@ -167,6 +179,17 @@ theorem c04_positive_cost_loop_halts (sys : Sys) (ops : List Op) (wf : Sys.WF sy
   have := c04_positive_cost_successes_bounded cls sys ops wf h hpos
   rw [successes_eq_calls ops _ hall] at this
   exact this
+
+/-- The loop itself: `while store[i].consume(cost, …): <body>` with `cost ≥ 1` and any body of calls without
+    inflow completes at most `room` iterations, and given more fuel than `room` it is left because the spend
+    was refused, not because the fuel ran out — i.e. the loop halts. -/
+theorem c04_pay_loop_halts (sys : Sys) (wf : Sys.WF sys) (i cost : Nat) (cur : Cur) (d : Bool) (p : Nat)
+    (body : List Op) (hc : 1 ≤ cost) (hb : ∀ op ∈ body, op.inflow = false) (fuel : Nat)
+    (hf : sumOf Store.room sys < fuel) :
+    (payLoop cls i cost cur d p body fuel sys).2 = true ∧
+    ((payLoop cls i cost cur d p body fuel sys).1 : Int) ≤ sumOf Store.room sys :=
+  ⟨(payLoop_spec cls i cost cur d p body hc hb fuel sys wf).2 hf,
+   (payLoop_spec cls i cost cur d p body hc hb fuel sys wf).1⟩
 
 /-! ### no operation raises -/
 
@@ -231,6 +254,12 @@ example : spentOf ops0 (run cN sys0 ops0).2 = 19 ∧ sumOf Store.room sys0 = 23 
 /-- `AllConsumesSucceed` is satisfiable (a prefix of the history above) and fails once the money is gone -/
 example : AllConsumesSucceed (ops0.take 6) (run cN sys0 (ops0.take 6)).2 := by decide
 example : ¬ AllConsumesSucceed ops0 (run cN sys0 ops0).2 := by decide
+/-- `c04_pay_loop_halts`: paying 4 per round from the colony above (room 23) with a body that converts and charges
+    interest stops after 4 rounds, well before the fuel (100) runs out; with too little fuel it is the fuel that ends it -/
+example : payLoop cN 0 4 .atp true 10 [.convert 0 1, .interest 0] 100 sys0 = (4, true) ∧
+    payLoop cN 0 4 .atp true 10 [.convert 0 1, .interest 0] 2 sys0 = (2, false) := by decide
+/-- `c04_failed_transfer_is_free`: a refused transfer exists -/
+example : (step cN sys0 (.transfer 1 0 1 .atp)).2 = .bool false := by decide
 /-- `c04_regenerate_within_capacity`: hypothesis met, and the clamp is exercised (10 + 7 clamps to 12 … -/
 example : ((regenerate cN { Store.fresh 12 0 0 0 1 10 with atp := 10 } 7 .atp).1.atp) = 12 := by decide
 /-- … while a balance that a refused top-up left above capacity is pulled back, never pushed further). -/
